@@ -223,7 +223,8 @@ def replay(path):
     scen = os.path.join(vlib.sub("scn"), "one.ndjson")
     with open(scen, "w") as f:
         f.write(json.dumps(doc["scenario"], separators=(",", ":")) + "\n")
-    out = vlib.replay(ENGINE, scen, nshards=1, timeout=120)
+    eng = "wireconc" if doc.get("engine") == "wireconc" else ENGINE
+    out = vlib.replay(eng, scen, nshards=1, timeout=300, env={"GOMAXPROCS": "8"} if eng == "wireconc" else None)
     if out.errors:
         raise vlib.Inconclusive(str(out.errors))
     if out.failures or out.crashes or out.timeouts:
